@@ -30,4 +30,3 @@ def le64 (l : List UInt8) : UInt64 :=
 def zeros (k : Nat) : List UInt8 := List.replicate k 0
 
 end Usual.C16
--- touch
